@@ -58,7 +58,8 @@ def _line(w, width):
 def gen(S, tier):
     c = S("config")
     width = c.pick([8, 12, 20, 40])
-    cfg = {"width": width, "ansi": c.chance(0.85), "forced": c.chance(0.2),
+    from ..simenv import gen_env
+    cfg = {"width": width, "term_env": gen_env(c, width), "ansi": c.chance(0.85), "forced": c.chance(0.2),
            # an ANSI-capable stream behind a formatter that disables decoration (tty + --no-ansi)
            "plain_formatter": c.chance(0.12),
            # clikit's own StreamOutputStream over a simulated text file (what is not flushed is not on screen)
@@ -132,18 +133,19 @@ def condition(sc, v):
 
 
 def execute(sc):
+    from ..simenv import terminal_env
     cfg = sc["config"]
-    old_cols = os.environ.get("COLUMNS")
-    os.environ["COLUMNS"] = str(cfg["width"])
-    try:
-        return _run(sc, cfg)
-    except UnknownSequence as e:
-        raise HarnessError("terminal emulator: %s" % e)
-    finally:
-        if old_cols is None:
-            os.environ.pop("COLUMNS", None)
-        else:
-            os.environ["COLUMNS"] = old_cols
+    # where the terminal width comes from: the COLUMNS variable, or the window size the (simulated)
+    # kernel reports for the descriptors that are terminals / for the controlling terminal
+    env = cfg.get("term_env") or {"columns": cfg["width"]}
+    with terminal_env(env) as stats:
+        try:
+            res = _run(sc, cfg)
+        except UnknownSequence as e:
+            raise HarnessError("terminal emulator: %s" % e)
+    if not env.get("columns"):
+        res.probe("width_from_window_size_of_fd" if env.get("tty_fds") else "width_from_controlling_terminal")
+    return res
 
 
 def _split(content):
